@@ -89,6 +89,7 @@ type mergePart struct {
 type LoopInfo struct {
 	NonFresh map[string]bool // keys modified in the loop on arbitrary objects that may pre-date the loop
 	OldRefs  map[string][]ssa.Value // keys modified in the loop only on these loop-invariant objects (and fresh ones)
+	ViewOnly map[string]bool // keys also written at interior-pointer views (negative addresses) by the loop
 	Header  *ssa.BasicBlock
 	Blocks  map[*ssa.BasicBlock]bool
 	Ordinal int
@@ -143,9 +144,16 @@ type FnVC struct {
 	LitProp string
 	lemmaName string
 	addrIDs map[string]int
+	stableCells []stableCell
 	havocs []havocRec
 	initOnly map[string]bool
 	provingLemma *Axiom
+}
+
+// stableCell: a captured-variable cell whose content survives calls with unknown effects (see immut.go).
+type stableCell struct {
+	key string
+	ref string
 }
 
 type recApp struct {
@@ -311,6 +319,22 @@ func (v *FnVC) havocAll(st *State) {
 	}
 	sort.Strings(ks)
 	v.havocs = append(v.havocs, havocRec{newEpoch: st.epoch, pre: &State{heap: old, epoch: oldEpoch, alloc: oldAlloc}, preAlloc: oldAlloc})
+	byKey := map[string][]string{}
+	var cellKeys []string
+	for _, sc := range v.stableCells {
+		if _, seen := byKey[sc.key]; !seen {
+			cellKeys = append(cellKeys, sc.key)
+		}
+		byKey[sc.key] = append(byKey[sc.key], sc.ref)
+	}
+	for _, k := range cellKeys {
+		pre := v.heapGet(&State{heap: old, epoch: oldEpoch}, k)
+		nw := v.freshConst("Hsc_"+k, v.heapSorts[k])
+		st.heap[k] = nw
+		for _, r := range byKey[k] {
+			v.asserts = append(v.asserts, fmt.Sprintf("(= (select %s %s) (select %s %s))", nw, r, pre, r))
+		}
+	}
 	for _, k := range ks {
 		pre := v.heapGet(&State{heap: old, epoch: oldEpoch}, k)
 		nw := v.freshConst("Hio_"+k, v.heapSorts[k])
@@ -941,6 +965,7 @@ func (v *FnVC) loopModKeys(li *LoopInfo) (keys map[string]bool, all bool) {
 	keys = map[string]bool{}
 	li.NonFresh = map[string]bool{}
 	li.OldRefs = map[string][]ssa.Value{}
+	li.ViewOnly = map[string]bool{}
 	outside := func(x ssa.Value) bool {
 		switch y := x.(type) {
 		case *ssa.Parameter, *ssa.FreeVar, *ssa.Global, *ssa.Const:
@@ -965,12 +990,15 @@ func (v *FnVC) loopModKeys(li *LoopInfo) (keys map[string]bool, all bool) {
 						}
 					}
 				}
+				if al, isAlloc := i.Addr.(*ssa.Alloc); isAlloc && al.Heap && outside(al) {
+					obj = al // a captured / address-taken variable's own cell
+				}
 				for _, k := range v.storeKeys(i.Addr) {
 					keys[k] = true
 					if fresh {
 						continue
 					}
-					if obj != nil && strings.HasPrefix(k, "F:") {
+					if obj != nil && (strings.HasPrefix(k, "F:") || strings.HasPrefix(k, "C:")) {
 						li.OldRefs[k] = append(li.OldRefs[k], obj)
 					} else {
 						li.NonFresh[k] = true
@@ -980,7 +1008,12 @@ func (v *FnVC) loopModKeys(li *LoopInfo) (keys map[string]bool, all bool) {
 				if m, ok := i.Map.Type().Underlying().(*types.Map); ok {
 					d, vl, l := v.mapKeys(m)
 					keys[d], keys[vl], keys[l] = true, true, true
-					if mk, isMk := i.Map.(*ssa.MakeMap); !isMk || !li.Blocks[mk.Block()] {
+					if mk, isMk := i.Map.(*ssa.MakeMap); isMk && !li.Blocks[mk.Block()] {
+						// a map created by this function before the loop: only that map changes
+						for _, k := range []string{d, vl, l} {
+							li.OldRefs[k] = append(li.OldRefs[k], mk)
+						}
+					} else if !isMk {
 						li.NonFresh[d], li.NonFresh[vl], li.NonFresh[l] = true, true, true
 					}
 				}
@@ -996,9 +1029,12 @@ func (v *FnVC) loopModKeys(li *LoopInfo) (keys map[string]bool, all bool) {
 				}
 			case *ssa.Select:
 				keys[v.regKey("CH:len", "(Array Int Int)")] = true
-			case *ssa.Go, *ssa.Defer:
+			case *ssa.Defer:
 				return nil, true
-			case ssa.CallInstruction:
+			case ssa.CallInstruction: // includes go statements: the callee's contract effect happens at the spawn
+				if v.interiorArgKeys(i.Common(), li, keys, outside) {
+					continue
+				}
 				ks, a := v.callModKeys(i.Common())
 				if a {
 					return nil, true
@@ -1023,6 +1059,93 @@ func (v *FnVC) loopModKeys(li *LoopInfo) (keys map[string]bool, all bool) {
 		}
 	}
 	return keys, false
+}
+
+// interiorArgKeys handles a call without contract and without effect on tracked state whose pointer arguments are all
+// addresses of struct-typed fields / elements (interior pointers): the callee can change the enclosing storage (the
+// container's key) and the view object materialised at the interior address, nothing else.
+func (v *FnVC) interiorArgKeys(c *ssa.CallCommon, li *LoopInfo, keys map[string]bool, outside func(ssa.Value) bool) bool {
+	if _, isB := c.Value.(*ssa.Builtin); isB {
+		return false
+	}
+	name, fn := v.calleeName(c)
+	if mc, ok := c.Value.(*ssa.MakeClosure); ok && !c.IsInvoke() {
+		fn = mc.Fn.(*ssa.Function)
+		name = v.W.FuncQualName(fn)
+	}
+	if name != "" && v.W.ContractFor(name) != nil {
+		return false
+	}
+	if v.effectClass(name, fn, c) != effNone {
+		return false
+	}
+	type acc struct {
+		addr     ssa.Value
+		el       types.Type
+		interior bool
+	}
+	var accs []acc
+	for _, a := range c.Args {
+		p, ok := a.Type().Underlying().(*types.Pointer)
+		if !ok {
+			continue
+		}
+		switch a.(type) {
+		case *ssa.FieldAddr, *ssa.IndexAddr:
+			if _, isS := structOf(p.Elem()); !isS {
+				return false
+			}
+			accs = append(accs, acc{a, p.Elem(), true})
+		default:
+			if !outside(a) {
+				return false
+			}
+			accs = append(accs, acc{a, p.Elem(), false}) // a loop-invariant pointer: only its pointee changes
+		}
+	}
+	if len(accs) == 0 {
+		return false
+	}
+	for _, ac := range accs {
+		if !ac.interior {
+			for _, k := range v.storeKeysOfType(ac.el) {
+				keys[k] = true
+				if strings.HasPrefix(k, "F:") || strings.HasPrefix(k, "C:") {
+					li.OldRefs[k] = append(li.OldRefs[k], ac.addr)
+				} else {
+					li.NonFresh[k] = true
+				}
+			}
+			continue
+		}
+		fresh := v.rootAllocatedIn(ac.addr, li)
+		var obj ssa.Value
+		if fa, ok := ac.addr.(*ssa.FieldAddr); ok {
+			if _, isPtr := fa.X.Type().Underlying().(*types.Pointer); isPtr && outside(fa.X) {
+				switch fa.X.(type) {
+				case *ssa.FieldAddr, *ssa.IndexAddr:
+				default:
+					obj = fa.X
+				}
+			}
+		}
+		for _, k := range v.storeKeys(ac.addr) {
+			keys[k] = true
+			if fresh {
+				continue
+			}
+			if obj != nil && strings.HasPrefix(k, "F:") {
+				li.OldRefs[k] = append(li.OldRefs[k], obj)
+			} else {
+				li.NonFresh[k] = true
+			}
+		}
+		for _, k := range v.storeKeysOfType(ac.el) {
+			keys[k] = true
+			li.ViewOnly[k] = true
+		}
+	}
+	return true
 }
 
 func (v *FnVC) localKey(a *ssa.Alloc) string {
@@ -1162,6 +1285,15 @@ func (v *FnVC) Generate() (err error) {
 		if _, isPtr := fvr.Type().Underlying().(*types.Pointer); isPtr {
 			// a captured variable is always a valid cell
 			v.asserts = append(v.asserts, fmt.Sprintf("(> %s 0)", t.S))
+			el := deref(fvr.Type())
+			if _, isS := structOf(el); !isS {
+				for k, f2 := range fn.FreeVars {
+					if f2 == fvr && stableFreeVar(fn, k) {
+						v.stableCells = append(v.stableCells, stableCell{key: v.cellKey(el), ref: t.S})
+						v.note("captured variable %s is not written by any closure: kept across calls with unknown effects", fvr.Name())
+					}
+				}
+			}
 		}
 	}
 	blocks := v.order()
